@@ -1410,6 +1410,46 @@ package badger
 //@   assert[range-ends-at-split-key] before call SafeCopy#1 : len(arg0) == 0
 //@   assert[next-starts-at-same-key] before call SafeCopy#2 : len(arg0) == 0
 
+// ---- restoring a backup (C24) ----
+
+// KVLoader.Set: the loaded entry carries the KV's key at the KV's version, its value, user
+// meta, meta and expiry; a full batch is sent before the entry is added, so no entry is lost or
+// reordered; Finish sends what is left and waits for every batch.
+//@ func (*KVLoader).Set
+//@   props C24
+//@   light
+//@   assert[key-at-own-version] before call KeyWithTs : arg0 == kv.Key && arg1 == kv.Version
+//@   assert[entry-as-backed-up] before call estimateSizeAndSetThreshold : arg0 == e && e.Key == ret(KeyWithTs#1) && e.Value == kv.Value && e.ExpiresAt == kv.ExpiresAt && (len(kv.UserMeta) > 0 ? e.UserMeta == kv.UserMeta[0] : e.UserMeta == 0) && (len(kv.Meta) > 0 ? e.meta == kv.Meta[0] : e.meta == 0)
+//@   assert[entry-added-after-flush] before call append : len(arg1) == 1 && arg1[0] == e && (called(send#1) ==> ret(send#1) == nil)
+//@   assert[send-error-stops] before return#1 : result == ret(send#1) && result != nil
+
+//@ func (*KVLoader).send
+//@   props C24
+//@   light
+//@   assert[batch-is-the-pending-entries] before call batchSetAsync : arg0 == l.db && arg1 == l.entries && called(Do#1) && ret(Do#1) == nil
+//@   assert[buffer-restarted-after-send] before return#3 : result == nil && len(l.entries) == 0 && l.entriesSize == 0 && ret(batchSetAsync#1) == nil
+
+//@ func (*KVLoader).Finish
+//@   props C24
+//@   light
+//@   assert[rest-is-sent] before call Finish : len(l.entries) == 0 || (called(send#1) && ret(send#1) == nil)
+//@   assert[waits-for-all-batches] before return#2 : result == ret(Finish#1)
+
+// The backup's Send: the returned version is the largest version written; stream-done markers
+// are not written; everything else is, in the order received.
+//@ func (*Stream).Backup.Send
+//@   props C24
+//@   light
+//@   loop 1 invariant[max-so-far] rangeindex >= 0 && rangeindex < len(list.Kv) ==> maxVersion >= list.Kv[rangeindex].Version
+//@   assert[data-kvs-kept] before call append : !kv.StreamDone && len(arg1) == 1 && arg1[0] == kv
+//@   assert[written-list] before call writeTo : arg0 == list && arg1 == w
+
+// WriteBatch.writeKV (managed restore path): key, value, user meta and the KV's version.
+//@ func (*WriteBatch).writeKV
+//@   props C24 C27
+//@   light
+//@   assert[entry-of-kv] before call handleEntry : arg1.version == kv.Version && e.version == kv.Version && e.Key == kv.Key && e.Value == kv.Value && (len(kv.UserMeta) > 0 ==> e.UserMeta == kv.UserMeta[0])
+
 // ---- streams (C25): one snapshot per run ----
 
 // Every producer goroutine of one Stream run must read the same snapshot. With a caller-given
